@@ -3,6 +3,7 @@ package main
 // C15 — credential cache files of every format version parse to what was written.
 
 import (
+	"go/types"
 	"fmt"
 	"strings"
 
@@ -91,6 +92,75 @@ func runC15(w *World, c *Check) {
 			}
 		}
 		c.Decide(okS, "C15.layout", FuncKey(fn), "is_skey", w.Pos(fn.Pos()), "is_skey is false exactly when the byte is zero", "no zero test of the is_skey byte")
+	}
+
+	// ---- times are signed 32-bit seconds ---------------------------------------------------------
+	// MIT writes times as signed 32-bit integers: a time before 1970 must come back as written, so the
+	// value handed to time.Unix is the sign-extended int32 (no unsigned type on the way).
+	if fn := w.Func("credentials.readTimestamp"); fn != nil {
+		fa := NewFuncAn(w, fn)
+		calls := fa.CallsDeep(`time\.Unix`)
+		ok := len(calls) == 1
+		detail := fmt.Sprintf("%d time.Unix calls", len(calls))
+		for _, dc := range calls {
+			v := dc.ci.Common().Args[0]
+			chain := []string{}
+			for {
+				cv, isConv := v.(*ssa.Convert)
+				if !isConv {
+					break
+				}
+				chain = append(chain, cv.X.Type().String()+"→"+cv.Type().String())
+				for _, t := range []types.Type{cv.X.Type(), cv.Type()} {
+					if bt, isB := t.Underlying().(*types.Basic); !isB || bt.Info()&types.IsInteger == 0 || bt.Info()&types.IsUnsigned != 0 {
+						ok = false
+					}
+				}
+				v = cv.X
+			}
+			if !fullMatch(`credentials\.readInt32\(.*\)`, dc.fa.R.R(v)) || v.Type().String() != "int32" {
+				ok = false
+			}
+			detail = "time.Unix argument: " + dc.fa.R.R(v) + " of type " + v.Type().String() + " through " + strings.Join(chain, ", ")
+		}
+		c.Decide(ok, "C15.layout", FuncKey(fn), "timestamp-signed", w.Pos(fn.Pos()), "a time is the signed 32-bit value read, sign-extended into time.Unix", detail)
+	}
+
+	// ---- header fields: zero or more ---------------------------------------------------------
+	// A version 4 header may have no field at all: the loop that reads tag/length/value must be able
+	// to end before its first read — some test that can leave the loop dominates every read in it.
+	if fn := w.Func("credentials.parseHeader"); fn != nil {
+		fa := NewFuncAn(w, fn)
+		nReads, bad := 0, ""
+		for _, sub := range fa.withNewHelpers() {
+			for _, ci := range sub.Calls(`credentials\.readInt16`) {
+				h := loopHeaderOf(ci.Block())
+				if h == nil {
+					continue
+				}
+				nReads++
+				guarded := false
+				for d := ci.Block(); d != nil; d = d.Idom() {
+					if loopHeaderOf(d) != h && d != h {
+						break
+					}
+					iff, isIf := lastInstr(d).(*ssa.If)
+					if !isIf || !(d == ci.Block() && false || d.Dominates(ci.Block())) || d == ci.Block() {
+						continue
+					}
+					for _, s := range d.Succs {
+						if lh := loopHeaderOf(s); lh != h && s != h {
+							guarded = true // this edge leaves the loop before the read
+						}
+					}
+					_ = iff
+				}
+				if !guarded {
+					bad = w.Pos(InstrPos(ci))
+				}
+			}
+		}
+		c.Decide(nReads >= 2 && bad == "", "C15.layout", FuncKey(fn), "header-fields-zero-or-more", w.Pos(fn.Pos()), "the header field loop can end before reading a field (a header with no fields is valid)", fmt.Sprintf("%d field reads in a loop; the read at %s is not preceded by a test that can leave the loop: a header without fields swallows the bytes that follow it", nReads, bad))
 	}
 
 	// ---- byte order ---------------------------------------------------------------------
